@@ -19,6 +19,7 @@ mod worker;
 /// Verification hooks (only with `--cfg actix_net_verif`); the source is supplied by the
 /// verification harness through the `ACTIX_NET_VERIF_DIR` environment variable.
 #[cfg(actix_net_verif)]
+#[allow(missing_docs, missing_debug_implementations)]
 pub mod verif {
     include!(concat!(env!("ACTIX_NET_VERIF_DIR"), "/server_verif.rs"));
 }
